@@ -2,11 +2,16 @@
 """Markdown tables for DESIGN.md §12 from mutants/results/*.jsonl (latest record per (change, check) wins)."""
 import json, glob, os, sys
 recs = {}
-for f in sorted(glob.glob("/verif/mutants/results/*.jsonl"), key=os.path.getmtime):
-    for l in open(f):
+allrecs = []
+for f in glob.glob("/verif/mutants/results/*.jsonl"):
+    for n, l in enumerate(open(f)):
         l = l.strip()
         if not l: continue
         r = json.loads(l)
+        allrecs.append((r.get("ts", 0), n, r))
+# the latest run of a (change, check) pair wins; records written before runs were time-stamped are oldest
+for _, _, r in sorted(allrecs, key=lambda x: (x[0], x[1])):
+    if True:
         if r.get("applied") is False:
             recs[(r["change"], "-")] = r
         else:
